@@ -110,6 +110,11 @@ def run(chk, tier):
     else:
         chk.ok('R1p', 'publishers', 'publish_trace ← %s only' % sorted(short(c) for c in cg8.callers(fpub['path'])))
 
+    # ---- R6: the durations of the policy are the configured ones -------------------------------------------------
+    chk.rule('R6', 'StrategyConfig is a name-preserving copy of the tracer\'s configuration', floor=1)
+    from .plumbing import check_copy
+    check_copy(chk, 'R6', prog, r'tracer::inner::TracerInner::make_strategy_config$', 'trippy_core::config::StrategyConfig', 'self')
+
     # ---- R2: completion reason -------------------------------------------------------------------------
     chk.rule('R2', 'completion reason is TargetFound iff target_found()', floor=2)
     fp = prog.find(r'Strategy::publish_trace$')
